@@ -20,7 +20,7 @@ impl<'a> Tokens<'a> {
     pub fn new(input: &'a mut str) -> Self {
 //@ ensures
 //@     // C07: for every NUL-free line the in-place tokenisation yields exactly the tokens of the documented rules
-//@     nul_free(old(input).spec_bytes()) ==> r.view() == tokenize(old(input).spec_bytes()),   // [C07,~C01,~C08,~C12]
+//@     nul_free(old(input).spec_bytes()) ==> r.view() == tokenize(old(input).spec_bytes()),   // [C07,~C01,~C08,~C12,~C17]
 //@     nul_free(old(input).spec_bytes()) ==> r.is_empty_spec() == (tokenize(old(input).spec_bytes()).len() == 0),   // [C07,~C01,~C08,~C12]
 //@     nul_free(old(input).spec_bytes()) ==> r.raw() == join0(tokenize(old(input).spec_bytes())),   // [C07]
         // SAFETY: bytes are modified correctly, so they remain utf8
